@@ -404,6 +404,8 @@ def rule_side_effect_results(prog, fixture=False):
             if recv is not None and recv.get("k") != "CXXThisExpr":
                 continue
             ts = [t for t in prog.call_targets(fn, call) if t.cls == fn.cls and t is not fn]
+            # "two results": the method hands back a value *and* leaves another one in a member
+            ts = [t for t in ts if any(m.get("k") == "ReturnStmt" and m.get("c") for m in t.walk())]
             if not ts:
                 continue
             fields = set()
